@@ -18,7 +18,7 @@ import ast
 from ..absint import Config, Interp, RaiseSig
 from ..harness import rule
 from ..index import AnalysisError, text
-from ..models import BASE_STUBS, explore_recv, frame_stubs, mk_websocket, recv_config, set_cont_state
+from ..models import BASE_STUBS, explore_recv, frame_stubs, mk_websocket, recv_config, set_cont_state, mk_frame_buffer
 from ..rulekit import CLOSED_EXC, TIMEOUT_EXC, WS_EXC, exc_is, isym, new_dict, new_list, new_obj, path_text
 from ..values import C, FALSE, INF, NONE, TRUE, App, Cls, HObj, Ref, Sym, Tup
 
@@ -263,7 +263,7 @@ def r2(ctx):
     I3 = Interp(idx, Config(stubs={"recv_fn": recv_stub}, loop_unroll=2))
 
     def body3(run, held=True):
-        fb = new_obj(run, "_abnf:frame_buffer", "fb", recv=Sym("recv_fn", "func"), recv_buffer=new_list(run, [Sym("held", "bytes")] if held else []))
+        fb = mk_frame_buffer(I3, run, [Sym("held", "bytes")] if held else [])
         return I3.call(run, I3.getattr(run, fb, "recv_strict", None), [isym(run, "declared_length", 0, 2 ** 64 - 1)], {}, None)
 
     # with something already buffered (a retry after a timeout) and with an empty buffer (the common case, where a fast path would live)
@@ -311,12 +311,18 @@ def r3(ctx):
         bad = None
         for o in outs:
             names = [e.name for e in o.effects]
-            its = [i for i, n in enumerate(names) if n == "loop.iter"]
-            for k, s in enumerate(its):
-                end = its[k + 1] if k + 1 < len(its) else len(names)
-                last = k + 1 == len(its)
-                if not any(n in consumers for n in names[s:end]) and not (last and o.kind in ("return", "raise")):
-                    bad = bad or o
+            # per loop (a parser written as a generator has its own loop, advanced once per line the caller reads): between two
+            # iterations of the same loop the transport must have been read
+            loops = sorted({e.loc for e in o.effects if e.name == "loop.iter"})
+            for lp in loops:
+                its = [i for i, e in enumerate(o.effects) if e.name == "loop.iter" and e.loc == lp]
+                for k, s in enumerate(its):
+                    end = its[k + 1] if k + 1 < len(its) else len(names)
+                    last = k + 1 == len(its)
+                    # (the last iteration seen may be unfinished: the path returned, raised, or the exploration's unroll bound cut it;
+                    # a loop that can spin shows it in its earlier iterations)
+                    if not any(n in consumers for n in names[s:end]) and not (last and o.kind in ("return", "raise", "cutoff")):
+                        bad = bad or o
         ctx.ob(f"{q}:every-iteration-consumes", bad is None and bool(outs), f"{len(outs)} paths" if bad is None else
                "a loop iteration neither reads from the transport nor leaves the loop: the call can spin on the same input", idx.loc(idx.func(q).node),
                {"path": path_text(bad)} if bad else None)
@@ -333,7 +339,7 @@ def r3(ctx):
     I3 = Interp(idx, cfg3)
 
     def body3(run):
-        fb = new_obj(run, "_abnf:frame_buffer", "fb", recv=Sym("recv_fn", "func"), recv_buffer=new_list(run, [Sym("held", "bytes")]))
+        fb = mk_frame_buffer(I3, run, [Sym("held", "bytes")])
         return I3.call(run, I3.getattr(run, fb, "recv_strict", None), [isym(run, "n", 0, 2 ** 64 - 1)], {}, None)
 
     def rf_stub(I4, run, args, kwargs, node):
